@@ -229,7 +229,7 @@ def oracle_cyl(grid, drops, mask, em):
 
 def check(ctx: vlib.Ctx) -> int:
     rng = random.Random(ctx.seed)
-    ok = vlib.prove(ctx, ["Proofs/C01.vo", "Proofs/LabelClients.vo", "Proofs/C01Cyl.vo", "Proofs/C01Multi.vo", "Proofs/BallCount.vo",
+    ok = vlib.prove(ctx, ["Proofs/C01.vo", "Proofs/LabelClients.vo", "Proofs/C01Cyl.vo", "Proofs/C01CylPer.vo", "Proofs/C01Multi.vo", "Proofs/BallCount.vo",
                           "Model/LocateCases.vo"], gens=[])
     # R-layer part (separation => located spheres do not overlap), over the generated radius_from_volume
     ok = vlib.prove(ctx, ["Proofs/C01Sep.vo"], prop_file="Properties/C01R.v", gens=["Gen_spherical"]) and ok
